@@ -5,7 +5,8 @@ from . import core
 
 PROP_FILE = "Properties/C19.v"
 THEOREMS = ["C19_off_keeps_source_order", "C19_on_is_permutation", "C19_on_sorted_or_kept", "C19_comment_keeps_order",
-            "C19_duplicate_keeps_order", "C19_default_off"]
+            "C19_duplicate_keeps_order", "C19_default_off", "C19_comment_outside_list_keeps_order",
+            "C19_final_is_permutation", "C19_final_off_keeps_source_order"]
 
 
 def post(ck, recs):
